@@ -100,7 +100,9 @@ contract('parso.parser.StackNode.__init__', params={'self': 'ref:StackNode', 'df
          modifies=['self.dfa', 'self.nodes'], props=['C02'])
 
 contract('parso.parser.BaseParser._pop', params={'self': 'ref:BaseParser'},
-         requires=['self.stack is not None', 'len(self.stack) >= 2', STACK_WF, NODES_NN],
+         requires=['self.stack is not None', 'len(self.stack) >= 2', STACK_WF, NODES_NN,
+                   # C05: only an entry whose rule is complete (its automaton is in a final state) is turned into a node
+                   'self.stack[len(self.stack) - 1].dfa.is_final'],
          ensures=[NODES_NN, 'len(self.stack) == old(len(self.stack)) - 1',
                   'forall(lambda k: implies(0 <= k and k < len(self.stack), self.stack[k] is old(self.stack[k])), trigger=lambda k: self.stack[k])',
                   'len(self.stack[len(self.stack) - 1].nodes) == old(len(self.stack[len(self.stack) - 2].nodes)) + 1',
